@@ -150,11 +150,14 @@ class Operand:
             return None
         v = self.const.get("v", "")
         ty = self.const.get("ty", "")
-        if ty == "&str" and v.startswith('const "'):
-            try:
-                return json.loads(v[len("const "):])
-            except Exception:
-                return v[len('const "'):-1]
+        if ty == "&str":
+            if v.startswith("const "):
+                v = v[len("const "):]
+            if v.startswith('"'):
+                try:
+                    return json.loads(v)
+                except Exception:
+                    return v[1:-1]
         return None
 
     def const_fn(self):
